@@ -509,6 +509,7 @@ func genC11(c *corpus, seed uint64) *scn.Scenario {
 	shareAll := r.chance(50)
 	keepSub := r.chance(30)  // swarm: in some runs callers keep one statement of a tree and drop the rest
 	opFaults := r.chance(30) // swarm: in some runs operations are aborted by their writer
+	opParts := r.chance(20)  // swarm: in some runs operations are applied to parts of the trees
 	for t := 0; t < nt; t++ {
 		var task scn.Task
 		if storm {
@@ -543,6 +544,13 @@ func genC11(c *corpus, seed uint64) *scn.Scenario {
 						op.Fault = &scn.WFault{Kind: "abort", At: r.n(60)}
 					} else if op.Kind != "resolve" && op.Kind != "null" {
 						op.Fault = &scn.WFault{Kind: wfaults[r.n(len(wfaults))], At: r.n(400)}
+					}
+				}
+				if opParts && r.chance(35) {
+					if r.chance(60) {
+						op.Sub = -(1 + r.n(3000))
+					} else {
+						op.Sub = 1 + r.n(40)
 					}
 				}
 				p.Ops = append(p.Ops, op)
@@ -796,9 +804,13 @@ func genC13(c *corpus, seed uint64) *scn.Scenario {
 	// swarm: in a quarter of the runs some operations are applied to one or two
 	// chosen statements of the tree instead of the root
 	var subs []int
-	if r.chance(25) {
-		for k := 1 + r.n(2); k > 0; k-- {
-			subs = append(subs, 1+r.n(40))
+	if r.chance(35) {
+		for k := 1 + r.n(3); k > 0; k-- {
+			if r.chance(55) {
+				subs = append(subs, -(1 + r.n(3000))) // any inner vertex, by pre-order number
+			} else {
+				subs = append(subs, 1+r.n(40))
+			}
 		}
 	}
 	if withFaults && r.chance(20) {
